@@ -20,6 +20,9 @@ RECYCLE_RX = [False]
 # the APIClient is constructed before the loop that later runs it exists (``cli = APIClient(...)`` at module level, then
 # ``asyncio.run(main(cli))``): asyncio.get_event_loop() answers with some other loop at construction time
 FOREIGN_LOOP_CLIENT = [False]
+# socket.connect() raises this (not an OSError) in every world created while it is set; and: connections created without a stop callback
+CONNECT_EXC: list[BaseException | None] = [None]
+NO_STOP_CALLBACK = [False]
 _FOREIGN_LOOP: list[Any] = []  # one per process, never run, never closed
 
 
@@ -319,7 +322,8 @@ class ConnWorld(World):
                 noise_psk=noise_psk,
                 expected_name=expected_name,
             )
-            self.conn = APIConnection(self.params, self._on_stop, debug, None)
+            self.conn = APIConnection(self.params, None if NO_STOP_CALLBACK[0] else self._on_stop, debug, None)
+        self.net.connect_exc = CONNECT_EXC[0]
         self._fed = 0  # bytes of client output already given to the noise device
 
     @staticmethod
